@@ -24,7 +24,8 @@ TOL = Fraction(1, 10**9)
 # signatures of defect classes the faithful model reproduces (a disagreement of the model inside such a class is
 # NOT explained by the class's known failure: it stays an unexplained disagreement)
 MODEL_EXPECTED = ("LinearModel.adjoint|nonorthogonal-geometry:", "LinearModel.get_matrix|stored-matrix+nonidentity-geometry",
-                  "LinearModel.T|double-conversion:", "_proj_backward_2D|", "Deconvolution1D.__init__|transposed-assembly")
+                  "LinearModel.T|double-conversion:", "_proj_backward_2D|", "Deconvolution1D.__init__|transposed-assembly",
+                  "LinearModel.get_matrix|nonlinear-projection:")
 
 
 # ------------------------------------------------------------------------------------------------
@@ -105,7 +106,8 @@ def mk_geom(spec, obj=None):
                  True, True, False, True)
     if k == "step":
         N, ns = spec[1], spec[2]
-        g = obj if obj is not None else cg.StepExpansion(np.arange(N), n_steps=ns)
+        proj = spec[3] if len(spec) > 3 else "mean"
+        g = obj if obj is not None else cg.StepExpansion(np.arange(N), n_steps=ns, fun2par_projection=proj)
         idx = [list(int(i) for i in a) for a in g._indices]
         flat = [i for a in idx for i in a]
         if flat != list(range(N)) or any(len(a) == 0 for a in idx):
@@ -113,6 +115,10 @@ def mk_geom(spec, obj=None):
         cnt = [len(a) for a in idx]
         pow2 = all(c & (c - 1) == 0 for c in cnt)
         allone = all(c == 1 for c in cnt)
+        if proj != "mean":        # max / min: exact on any data, linear only over one-node steps
+            gg = G(spec, g, "(GStepX %s %s)" % (cbool(proj == "max"), clist([cnat(c) for c in cnt])), "StepExpansion", ns, N, (N,), True, allone, False, allone)
+            gg.nonlinear = not allone
+            return gg
         return G(spec, g, "(GStep %s)" % clist([cnat(c) for c in cnt]), "StepExpansion", ns, N, (N,), pow2, allone, False, allone)
     if k == "kl":
         N, nm, decay, norm = spec[1], spec[2], spec[3], spec[4]
@@ -649,6 +655,8 @@ def property_oracle(m, meta, o):
         stored = m.backing != "function" and meta["model"].get("tp") != "deconv2d" and not o.get("gm_fixed")
         sig = ("LinearModel.get_matrix|stored-matrix+nonidentity-geometry" if stored and not (m.D.ident and m.R.ident)
                else "LinearModel.get_matrix|%s,%s->%s" % (m.backing, m.D.family, m.R.family))
+        if not stored and (getattr(m.D, "nonlinear", False) or getattr(m.R, "nonlinear", False)):
+            sig = "LinearModel.get_matrix|nonlinear-projection:StepExpansion"
         Gm = o["G"]
         if Gm is None:
             return ("get_matrix raised", sig)
@@ -967,7 +975,7 @@ def run(ctx):
             cases.extend(make_cases(meta, "representations/" + label))
 
     # ---- 3. expansions and mapped geometries (non-orthogonal maps), both backings, domain and range side --------
-    exp_specs = [["step", 6, 3], ["step", 4, 2], ["step", 8, 4], ["step", 7, 3], ["step", 5, 2], ["step", 3, 3], ["step", 9, 2],
+    exp_specs = [["step", 6, 3, "max"], ["step", 5, 2, "min"], ["step", 3, 3, "max"], ["step", 6, 3], ["step", 4, 2], ["step", 8, 4], ["step", 7, 3], ["step", 5, 2], ["step", 3, 3], ["step", 9, 2],
                  ["kl", 6, None, 2.5, 12.0], ["kl", 5, 3, 1.5, 2.0], ["kl", 4, 4, 1.0, 1.0],
                  ["mapped", 2, 1, ["cont1d", 3]], ["mapped", 1, 4, ["discrete", 4]], ["mapped", -1, 1, ["cont1d", 3]],
                  ["mapped", 1, 1, ["cont1d", 4]], ["mapped", 2, 1, ["step", 6, 3]], ["mapped", 4, 1, ["image", 2, 2, "F"]]]
@@ -1083,6 +1091,8 @@ def classify(meta, detail):
 
 
 WITNESSES = {
+    "LinearModel.get_matrix|nonlinear-projection:StepExpansion":
+        {"op": "gm", "model": {"backing": "function", "A": [[1, 0], [0, 1]], "D": ["int", 2], "R": ["step", 2, 1, "max"]}, "x": [1, 1], "y": [1]},
     "LinearModel.adjoint|nonorthogonal-geometry:StepExpansion":
         {"op": "fa", "model": {"backing": "dense", "A": [[1, 2, 0, 1, 3, 1], [0, 1, 1, 2, 0, 1], [2, 0, 1, 0, 1, 1]], "D": ["step", 6, 3], "R": ["int", 3]},
          "x": [1, 2, 3], "y": [1, -1, 2]},
